@@ -22,6 +22,11 @@ mod variables;
 mod variant_casts;
 mod write_printer;
 
+#[cfg(feature = "verif")]
+pub mod verif;
+#[cfg(feature = "verif")]
+pub mod verif_fs;
+
 #[cfg(test)]
 mod test_utils;
 #[cfg(test)]
